@@ -159,6 +159,39 @@ def replay_bare(ctx, case):
         ctx.disagreement(case, f"register names without %: reported at {str(res[1:2])[:160]}, expected {case['want'][:8]}")
 
 
+def numbering_after_alternatives(ctx, ws):
+    """Names that are first seen as ALTERNATIVES of one $or (each alternative opens a group of its own), followed by names defined
+    and used again after it: the later names refer to their own groups. By construction, identical at every seed."""
+    from jv import listing as L
+    def ask(pattern, rows, want, what):
+        insts, addr = [], 0x401000
+        for m, ops in rows:
+            insts.append(L.SInst(addr, m, list(ops), None, None, 3))
+            addr += 3
+        text = L.render(insts, ctx.rng, labels=False)
+        rule = real.dump_rule({"pattern": pattern})
+        res = real.match(ws.write("alt.yaml", rule), ws.write("alt.s", text), ret="list", search="all", only_addr=True)
+        ctx.ran()
+        ctx.event("numbering_after_alternatives_probes")
+        got = res[0] == "ok" and bool(res[1])
+        ctx.case(("after-alternatives", rule, text), True, stratum="names defined after alternatives that open groups", outcome="found" if got else "not found")
+        if res[0] != "ok" or got != want:
+            ctx.disagreement({"deref_component": True, "rule": rule, "listing": text, "want": want},
+                             f"{what}: expected {'found' if want else 'not found'}, got {str(res[1:2])[:120]} | regex={str(res[2])[:300] if res[0] == 'ok' else res[1:]}")
+    for alts in (["&a", "&b"], ["&a", "&b", "&e"], ["&a", "%rzz", "&b"], [{"$deref": {"main_reg": "&m"}}, {"$deref": {"main_reg": "&n"}}]):
+        pat = [{"mov": [{"$or": list(alts)}, "%rax"]}, {"push": ["&c"]}, {"pop": ["&d"]}, {"add": ["&d", "&c"]}]
+        memop = isinstance(alts[0], dict)
+        first = "(%rbx)" if memop else "%rbx"
+        ask(pat, [("mov", [first, "%rax"]), ("push", ["%rcx"]), ("pop", ["%rdx"]), ("add", ["%rdx", "%rcx"])], True, f"alternatives {alts}, later names in their places")
+        ask(pat, [("mov", [first, "%rax"]), ("push", ["%rcx"]), ("pop", ["%rdx"]), ("add", ["%rcx", "%rdx"])], False, f"alternatives {alts}, later names swapped")
+        ask(pat, [("mov", [first, "%rax"]), ("push", ["%rcx"]), ("pop", ["%rdx"]), ("add", ["%rdx", "%rbx"])], False, f"alternatives {alts}, a later name compared with the alternative's text")
+    for group in ("$or", "$and_any_order"):
+        pat = [{group: [{"push": ["&a"]}, {"pop": ["&b"]}]}, {"mov": ["&c", "&d"]}, {"add": ["&d", "&c"]}] if group == "$or" else None
+        if pat:
+            ask(pat, [("push", ["%rbx"]), ("mov", ["%rcx", "%rdx"]), ("add", ["%rdx", "%rcx"])], True, "instruction alternatives with names, later names in their places")
+            ask(pat, [("pop", ["%rbx"]), ("mov", ["%rcx", "%rdx"]), ("add", ["%rcx", "%rdx"])], False, "instruction alternatives with names, later names swapped")
+
+
 def feat(rng):
     r = rng.random()
     if r < 0.15:   # other constructs (items with and without operands carrying times, groups, $not) between definitions and uses:
@@ -454,6 +487,8 @@ def run_shard(ctx):
         deref_component_probes(ctx, d.ws)
     if ctx.shard == 7 % ctx.nshards:
         bare_register_probes(ctx, d.ws)
+    if ctx.shard == 0:
+        numbering_after_alternatives(ctx, d.ws)
     d.loop(3500, 300000)
 
 
